@@ -1,5 +1,5 @@
 //verif:package github.com/kstenerud/go-concise-encoding/iterator
-//verif:config cap=300
+//verif:config cap=300 maxsec=1800
 //verif:bounds marshal side: one struct type with 13 fields covering every tag (omit, omit_empty, omit_zero, omit_never, name=, order=), an embedded struct, an unexported field and an acronym name; kinds uint64, string (0..1 symbolic bytes), []byte (nil, empty, 1 element), *uint64 (nil or pointing to a symbolic value); both field-name styles; default omit behaviour never / empty / zero
 //verif:assume the real iterator Session/RootObjectIterator/struct iterator run on the engine's reflect emulation and a sequential model of sync.Map/WaitGroup; the expected event list is computed from a hand-written table of the fields (no reflection, no tag parsing); struct *types* are fixed Go types, only their contents and the configuration are symbolic
 package iterator
